@@ -237,7 +237,7 @@ fn eval_cells(ctx: &Ctx, case: &CellsCase) -> Verdict {
 pub fn check(ctx: &Ctx) -> Check {
     let parts: Vec<Box<dyn Part>> = vec![Box::new(RandomPart {
         name: "create-counts",
-        rule: "generated call sets (1..3 contigs, 1..12 samples with ASCII or non-ASCII names, 0..40 records at increasing or repeated positions, header fileformat VCFv4.1..4.4; phased/unphased, missing, multiallelic, monomorphic, symbolic ALT, up to 11 ALT alleles with two-digit allele indices, REF alleles of up to 9 000 bases (lines longer than the 8 KiB read buffer; rlen > 1 in BCF), extra INFO/FORMAT fields, records without a GT key; non-diploid genotypes only in unselected samples; record classes all-complete / all-missing / one-missing / only-unselected-incomplete forced) x sample->population maps (1..4 populations, any subset, inline or file, or no option at all) x container {vcf, bgzf vcf, bgzf bcf, raw bcf} x log verbosity {default, -v, -vv, -vvv, -q, -qq} x --threads {not given, 1, 2, 4, 7}: exit 0, shape (2n_j+1), every cell equal to the reference model's count and printed as a bare integer; non-trivial = >=1 record counted and (unequal population sizes | strict subset | >=1 skipped record | a counted record whose only incomplete sample is unselected); distinct by (call set, map, container)",
+        rule: "generated call sets (1..3 contigs named like identifiers, bare numbers, chrUn_.., accession.version or HLA alleles with `*` and `:`, 1..12 samples with ASCII or non-ASCII names, 0..40 records at increasing or repeated positions, header fileformat VCFv4.1..4.4; phased/unphased, missing, multiallelic, monomorphic, symbolic ALT, up to 11 ALT alleles with two-digit allele indices, REF alleles of up to 9 000 bases (lines longer than the 8 KiB read buffer; rlen > 1 in BCF), extra INFO/FORMAT fields, records without a GT key; non-diploid genotypes only in unselected samples; record classes all-complete / all-missing / one-missing / only-unselected-incomplete forced) x sample->population maps (1..4 populations, any subset, inline or file, or no option at all) x container {vcf, bgzf vcf, bgzf bcf, raw bcf} x log verbosity {default, -v, -vv, -vvv, -q, -qq} x --threads {not given, 1, 2, 4, 7}: exit 0, shape (2n_j+1), every cell equal to the reference model's count and printed as a bare integer; non-trivial = >=1 record counted and (unequal population sizes | strict subset | >=1 skipped record | a counted record whose only incomplete sample is unselected); distinct by (call set, map, container)",
         cases: ctx.tier.pick(8000, 300_000),
         strategy: Box::new(|| strategy(GenParams::default()).boxed()),
         eval: Box::new(eval),
